@@ -1,6 +1,7 @@
 import FranzVerif.Model.C28
 import FranzVerif.Spec.C28
 import FranzVerif.Proof.C28
+import FranzVerif.Proof.C28Sel
 /-! C28 — property theorems: "Partitioners pick valid, Kafka-compatible partitions".
 
 `Model.C28` is the transcription of pkg/kgo/partitioner.go (tied to the code by the differential run),
@@ -142,10 +143,10 @@ theorem rule_sarama_stickyKey :
   rw [saramaHasher_eq _ _ hn, fnv_eq]
 
 /-- non-vacuity: a least-backup sequence whose `n` shrinks from 3 to 2 below the pinned index. -/
-example : OpValid .leastBackup (.part ⟨none, 0, []⟩ 3 [5, 5, 0] [1]) ∧
-    OpValid .leastBackup (.part ⟨none, 0, []⟩ 2 [5, 5] []) ∧
+example : OpValid .leastBackup (.part ⟨none, 0, [], 0⟩ 3 [5, 5, 0] [1]) ∧
+    OpValid .leastBackup (.part ⟨none, 0, [], 0⟩ 2 [5, 5] []) ∧
     PKind.run .leastBackup (PKind.init .leastBackup)
-      [.part ⟨none, 0, []⟩ 3 [5, 5, 0] [1], .part ⟨none, 0, []⟩ 2 [5, 5] [1]] = some [(none, 3, 2), (none, 2, 1)] := by
+      [.part ⟨none, 0, [], 0⟩ 3 [5, 5, 0] [1], .part ⟨none, 0, [], 0⟩ 2 [5, 5] [1]] = some [(none, 3, 2), (none, 2, 1)] := by
   refine ⟨⟨by decide, by decide, fun _ => ⟨by decide, by decide⟩⟩, ⟨by decide, by decide, fun _ => ⟨by decide, by decide⟩⟩, by decide⟩
 
 example : KindOk (.stickyKey defaultHasher) := default_hasher_ok
@@ -180,6 +181,219 @@ theorem uniformBytes_default_is_java (c : UBCfg) (hkeys : c.keys = true) (hh : c
   unfold UB.partitionByBackup
   rw [hkeys, h₁, hh]
   simp only [↓reduceIte, default_hasher_is_java key n hn, Outcome.pick?]
+
+/-! ### `RequiresConsistency` is true exactly for the records the partitioner hashes
+
+`PKind.obsKey` is the key the key logic of `Partition` / `PartitionByBackup` sees (the scrutinee of their
+`if r.Key != nil` / `if p.u.keys && r.Key != nil` branch).  For the five partitioners with state,
+`RequiresConsistency(r)` holds iff that branch is taken; when it is taken the pick is the hasher's answer
+from every state, when it is not the hasher is never consulted.  `BasicConsistentPartitioner` /
+`ManualPartitioner` always require consistency (their pick is a function of the record and `n` alone). -/
+
+theorem requiresConsistency_iff_hashed (k : PKind) (hb : k.isBasic = false) (r : Rec) :
+    k.requiresConsistency r = true ↔ ∃ key, k.obsKey r = some key := by
+  rw [requiresConsistency_eq, hb, Bool.or_false, Option.isSome_iff_exists]
+
+theorem basic_requires_consistency (f : Rec → Int → Option Int) (r : Rec) :
+    (PKind.basic f).requiresConsistency r = true := rfl
+
+/-- a record that requires consistency under a stateful partitioner is mapped by the hasher alone:
+every state, every backup iterator, every random draw give `hasher(key, n)`, and the state is not touched. -/
+theorem consistent_record_is_hashed (k : PKind) (hk : KindOk k) (hb : k.isBasic = false) (r : Rec)
+    (hrc : k.requiresConsistency r = true) :
+    ∃ key, r.key = some key ∧ ∀ (s : PState), Inv k s → ∀ (n : Int), 1 ≤ n → n ≤ 2147483647 →
+      ∀ (it : Iter) (draws : List Nat),
+        ∃ p, kindHasher k key n = some p ∧ 0 ≤ p ∧ p < n ∧ k.partitionN s r n it draws = .ok s p := by
+  obtain ⟨key, hkey⟩ := (requiresConsistency_iff_hashed k hb r).mp hrc
+  refine ⟨key, ?_, fun s hs n hn hn2 it draws => keyed_partitionN k hk s hs r key hkey n hn hn2 it draws⟩
+  cases k with
+  | stickyKey h => exact hkey
+  | uniformBytes c =>
+    simp only [PKind.obsKey] at hkey
+    cases hc : c.keys <;> simp [hc] at hkey
+    exact hkey
+  | _ => simp [PKind.obsKey] at hkey
+
+/-- a record that does not require consistency is partitioned without the hasher: any other hasher gives
+the same outcome (pick and successor state). -/
+theorem inconsistent_record_is_not_hashed (k : PKind) (r : Rec) (hrc : k.requiresConsistency r = false)
+    (h' : Hasher) (s : PState) (n : Int) (it : Iter) (draws : List Nat) :
+    (k.withHasher h').partitionN s r n it draws = k.partitionN s r n it draws := by
+  apply unhashed_ignores_hasher
+  rw [requiresConsistency_eq] at hrc
+  cases ho : k.obsKey r with
+  | none => rfl
+  | some key => simp [ho] at hrc
+
+/-- an empty, non-nil key is a key: sticky-key and uniform-bytes (keys on) require consistency for it. -/
+example : (PKind.stickyKey defaultHasher).requiresConsistency ⟨some [], 0, [], 0⟩ = true ∧
+    (PKind.uniformBytes ⟨65536, true, true, defaultHasher⟩).requiresConsistency ⟨some [], 0, [], 0⟩ = true ∧
+    (PKind.uniformBytes ⟨65536, true, false, defaultHasher⟩).requiresConsistency ⟨some [], 0, [], 0⟩ = false ∧
+    (PKind.uniformBytes ⟨65536, true, true, defaultHasher⟩).requiresConsistency ⟨none, 0, [], 0⟩ = false := by
+  decide
+
+/-! ### the client around the partitioner (`doPartition`): key consistency across leader outages -/
+
+/-- For a record that requires consistency `doPartition` never reads `writablePartitions`: replacing the
+writable subset by any other list leaves the whole outcome unchanged (every partitioner, every state). -/
+theorem consistent_record_ignores_writable (k : PKind) (s : PState) (t : TopicData) (w : List Part) (r : Rec)
+    (d₁ d₂ : List Nat) (h : k.requiresConsistency r = true) :
+    k.doPartition s { t with writable := w } r d₁ d₂ = k.doPartition s t r d₁ d₂ :=
+  doPartition_consistent_writable k s t w r d₁ d₂ h
+
+/-- **Keyed records.**  Every partitioner with key logic and a well-behaved hasher, every state, every record
+whose key is non-nil (the empty key included) and seen by the key logic, every topic with
+`1 ≤ len(partitions) ≤ 2^31-1` numbered `0 … len-1`, **every** `writablePartitions` (no hypothesis on it),
+every buffered count, batch state and random draw: the record is handed to the partition whose *number* is
+`hasher(key, len(partitions))`, looked up in *all* partitions. -/
+theorem keyed_record_partition (k : PKind) (hk : KindOk k) (s : PState) (hs : Inv k s) (r : Rec) (key : List UInt8)
+    (hkey : k.obsKey r = some key) (t : TopicData) (hf : t.fatalLoadErr = false)
+    (h1 : 1 ≤ t.partitions.length) (h2 : t.partitions.length ≤ 2147483647) (hnum : Numbered t.partitions)
+    (d₁ d₂ : List Nat) :
+    ∃ s' part b, k.doPartition s t r d₁ d₂ = .placed s' part b ∧ Inv k s' ∧
+      kindHasher k key t.partitions.length = some (part.num : Int) ∧ t.partitions[part.num]? = some part := by
+  obtain ⟨s', part, b, e, hi, _, hh, hg⟩ := doPartition_keyed k hk s hs r key hkey t hf h1 h2 hnum d₁ d₂
+  exact ⟨s', part, b, e, hi, hh, hg⟩
+
+/-- … which for the default hasher is the partition the Java client picks over the topic's partition count:
+`toPositive(murmur2(key)) % len(allPartitions)`, whatever subset is writable. -/
+theorem keyed_record_goes_to_java_partition (k : PKind) (hk : KindOk k) (hr : RuleOk k .kafkaDefault)
+    (s : PState) (hs : Inv k s) (r : Rec) (key : List UInt8) (hkey : k.obsKey r = some key) (t : TopicData)
+    (hf : t.fatalLoadErr = false) (h1 : 1 ≤ t.partitions.length) (h2 : t.partitions.length ≤ 2147483647)
+    (hnum : Numbered t.partitions) (d₁ d₂ : List Nat) :
+    ∃ s' part b, k.doPartition s t r d₁ d₂ = .placed s' part b ∧
+      (part.num : Int) = toPositive (murmur2Java key) % (t.partitions.length : Int) := by
+  obtain ⟨s', part, b, e, _, hh, _⟩ := keyed_record_partition k hk s hs r key hkey t hf h1 h2 hnum d₁ d₂
+  refine ⟨s', part, b, e, ?_⟩
+  have := hr key t.partitions.length _ (by omega) (by omega) rfl
+  rw [hh] at this
+  exact Option.some.inj this
+
+/-- **Equal keys map to the same partition across leader outages** (Model ⇒ Spec): two records with the
+same key, produced at two moments of the same topic (same partition count; *different* writable subsets,
+buffered counts, batch states, partitioner states and random draws), are placed on the same partition
+number, and the second observation satisfies the Spec `selOk` the driver evaluates, given the first. -/
+theorem equal_keys_same_partition_across_outage (k : PKind) (hk : KindOk k) (rule : KeyRule) (hr : RuleOk k rule)
+    (key : List UInt8) (s₁ s₂ : PState) (hs₁ : Inv k s₁) (hs₂ : Inv k s₂) (r₁ r₂ : Rec)
+    (hk₁ : k.obsKey r₁ = some key) (hk₂ : k.obsKey r₂ = some key) (t₁ t₂ : TopicData)
+    (hf₁ : t₁.fatalLoadErr = false) (hf₂ : t₂.fatalLoadErr = false)
+    (hlen : t₂.partitions.length = t₁.partitions.length)
+    (h1 : 1 ≤ t₁.partitions.length) (h2 : t₁.partitions.length ≤ 2147483647)
+    (hn₁ : Numbered t₁.partitions) (hn₂ : Numbered t₂.partitions) (d₁ d₂ e₁ e₂ : List Nat) :
+    ∃ s₁' p₁ b₁ s₂' p₂ b₂,
+      k.doPartition s₁ t₁ r₁ d₁ d₂ = .placed s₁' p₁ b₁ ∧ k.doPartition s₂ t₂ r₂ e₁ e₂ = .placed s₂' p₂ b₂ ∧
+      p₁.num = p₂.num ∧
+      selOk rule [⟨some key, t₁.partitions.length, t₁.writable.map (fun p => (p.num : Int)), p₁.num⟩]
+        ⟨some key, t₂.partitions.length, t₂.writable.map (fun p => (p.num : Int)), p₂.num⟩ = true := by
+  obtain ⟨s₁', p₁, b₁, e₁', _, hh₁, _⟩ := keyed_record_partition k hk s₁ hs₁ r₁ key hk₁ t₁ hf₁ h1 h2 hn₁ d₁ d₂
+  obtain ⟨s₂', p₂, b₂, e₂', _, hh₂, hg₂⟩ :=
+    keyed_record_partition k hk s₂ hs₂ r₂ key hk₂ t₂ hf₂ (by omega) (by omega) hn₂ e₁ e₂
+  have hsame : p₁.num = p₂.num := by
+    rw [hlen, hh₁] at hh₂
+    have := Option.some.inj hh₂
+    omega
+  have hlt : p₂.num < t₂.partitions.length := by
+    have := List.getElem?_eq_some_iff.mp hg₂
+    exact this.1
+  refine ⟨s₁', p₁, b₁, s₂', p₂, b₂, e₁', e₂', hsame, ?_⟩
+  simp only [selOk, selKeyedOk, inRange, Bool.and_eq_true, decide_eq_true_eq, List.all_cons, List.all_nil,
+    Bool.and_true]
+  refine ⟨⟨by omega, by omega⟩, ?_, ?_⟩
+  · simp [hsame]
+  · cases rule with
+    | consistentOnly => rfl
+    | kafkaDefault =>
+      have := hr key t₂.partitions.length _ (by omega) (by omega) rfl
+      rw [hh₂] at this
+      simp [ruleHolds, Option.some.inj this]
+    | saramaFnv =>
+      have := hr key t₂.partitions.length _ (by omega) (by omega) rfl
+      rw [hh₂] at this
+      simp [ruleHolds, Option.some.inj this]
+    | unsignedFnv =>
+      have := hr key t₂.partitions.length _ (by omega) (by omega) rfl
+      rw [hh₂] at this
+      simp [ruleHolds, Option.some.inj this]
+
+/-- **Every record.**  Every built-in partitioner (well-behaved hasher), every state, every record, every
+topic whose writable partitions are a sub-list of its `1 … 2^31-1` partitions: `doPartition` never panics,
+never fails the record, and hands it to a partition of the topic — a *writable* one whenever the record
+does not require consistency and some partition is writable. -/
+theorem every_record_is_placed (k : PKind) (hk : KindOk k) (s : PState) (hs : Inv k s) (r : Rec) (t : TopicData)
+    (hf : t.fatalLoadErr = false) (hm : MappingOk t.partitions) (hsub : t.writable.Sublist t.partitions)
+    (d₁ d₂ : List Nat) :
+    ∃ s' part b, k.doPartition s t r d₁ d₂ = .placed s' part b ∧ Inv k s' ∧ part ∈ t.partitions ∧
+      (k.requiresConsistency r = false → t.writable ≠ [] → part ∈ t.writable) := by
+  have hmw : t.writable ≠ [] → MappingOk t.writable := by
+    intro hne
+    refine ⟨?_, ?_, fun p hp => hm.2.2 p (hsub.subset hp)⟩
+    · cases hw : t.writable with
+      | nil => exact absurd hw hne
+      | cons a l => simp
+    · have := hsub.length_le; have := hm.2.1; omega
+  have hmap : MappingOk (k.mappingOf r t) ∧ (∀ p ∈ k.mappingOf r t, p ∈ t.partitions) ∧
+      (k.requiresConsistency r = false → t.writable ≠ [] → k.mappingOf r t = t.writable) := by
+    unfold PKind.mappingOf
+    by_cases hrc : k.requiresConsistency r = true
+    · rw [if_pos hrc]; exact ⟨hm, fun _ h => h, fun h => by rw [hrc] at h; cases h⟩
+    · rw [if_neg hrc]
+      by_cases hw : t.writable = []
+      · rw [if_pos ⟨by simp [hw], by have := hm.1; omega⟩]
+        exact ⟨hm, fun _ h => h, fun _ h => absurd hw h⟩
+      · have hl : ¬ (t.writable.length = 0 ∧ t.partitions.length > 0) := by
+          intro h; exact hw (List.eq_nil_of_length_eq_zero h.1)
+        rw [if_neg hl]
+        exact ⟨hmw hw, fun p hp => hsub.subset hp, fun _ _ => rfl⟩
+  obtain ⟨s', part, b, e, hi, hmem⟩ := doPartition_ok k hk s hs r t hf hmap.1 d₁ d₂
+  refine ⟨s', part, b, e, hi, hmap.2.1 part hmem, fun h1 h2 => ?_⟩
+  rw [hmap.2.2 h1 h2] at hmem
+  exact hmem
+
+/-- `ManualPartitioner` / `BasicConsistentPartitioner`: the function's answer indexes all partitions (or the
+record is failed as an invalid choice); `writablePartitions` is never read. -/
+theorem basic_record_partition (f : Rec → Int → Option Int) (t : TopicData) (hf : t.fatalLoadErr = false)
+    (h1 : 1 ≤ t.partitions.length) (r : Rec) (p : Int) (hp : f r t.partitions.length = some p) (d₁ d₂ : List Nat) :
+    (PKind.basic f).doPartition .unit t r d₁ d₂ =
+      if doPartitionRejects p t.partitions.length then .failInvalid p t.partitions.length
+      else match t.partitions[p.toNat]? with
+        | none => .panic
+        | some part => .placed .unit part false :=
+  doPartition_basic f t hf h1 r p hp d₁ d₂
+
+/-- Non-vacuity, and the case the text singles out ("all keys, including nil and empty"): the default
+partitioner (uniform bytes, keys on, default hasher), a record with an **empty non-nil key**, a topic of four
+partitions.  With every partition writable and with partition 3 leaderless the record goes to partition 1
+(`murmur2("") = 275646681`, `275646681 % 4 = 1`, the Java client's pick); hashing over the three writable
+partitions instead would have sent it to partition 0. -/
+example :
+    let k := PKind.uniformBytes ⟨65536, true, true, defaultHasher⟩
+    let r : Rec := ⟨some [], 1, [], 0⟩
+    let p0 : Part := ⟨0, 0, .newBatch⟩
+    let p1 : Part := ⟨1, 2, .fits⟩
+    let p2 : Part := ⟨2, 0, .newBatch⟩
+    let p3 : Part := ⟨3, 7, .fits⟩
+    (k.doPartition k.init ⟨false, [p0, p1, p2, p3], [p0, p1, p2, p3]⟩ r [] []).part? = some p1 ∧
+    (k.doPartition k.init ⟨false, [p0, p1, p2, p3], [p0, p1, p2]⟩ r [] []).part? = some p1 ∧
+    (k.doPartition k.init ⟨false, [p0, p1, p2, p3], []⟩ r [] []).part? = some p1 ∧
+    k.requiresConsistency r = true ∧ k.obsKey r = some [] ∧
+    kafkaPartition [] 4 = 1 ∧ defaultHasher [] 3 = some 0 ∧
+    Numbered [p0, p1, p2, p3] := by
+  refine ⟨by decide, by decide, by decide, by decide, by decide, by decide, by decide, by unfold Numbered; decide⟩
+
+/-- the same topic, a nil key: the record avoids the leaderless partition. -/
+example :
+    let k := PKind.uniformBytes ⟨65536, false, true, defaultHasher⟩
+    let p0 : Part := ⟨0, 0, .fits⟩
+    let p1 : Part := ⟨1, 0, .fits⟩
+    let p3 : Part := ⟨3, 0, .fits⟩
+    (k.doPartition k.init ⟨false, [p0, p1, ⟨2, 0, .fits⟩, p3], [p0, p1, p3]⟩ ⟨none, 1, [], 0⟩ [2] []).part? = some p3 := by
+  decide
+
+example : KindOk (.uniformBytes ⟨65536, true, true, defaultHasher⟩) := default_hasher_ok
+example : KindOk PKind.manual → False := by
+  intro h
+  obtain ⟨p, e, _, h1⟩ := h ⟨none, 0, [], 5⟩ 1 (by decide) (by decide)
+  simp at e; omega
 
 /-! ### the producer rejects any out-of-range pick -/
 
